@@ -69,6 +69,14 @@ def kinds():
             evs += ["adv 1", "rx 0 " + nodegen.dwr(n(), n(), "peer1.x")]
         return evs + ["eof 0", "tick"]
 
+    def dwr_in_sparse(N):
+        # one watchdog exchange per connection, 400 s apart: the statistics windows (1000 s) forget what has left them
+        evs = ["start fail"]
+        for i in range(N):
+            evs += ["acc", f"rx {i} " + nodegen.cer("peer1.x", "4", n(), n()), f"rx {i} " + nodegen.dwr(n(), n(), "peer1.x"),
+                    f"rx {i} " + nodegen.ccr(n(), n(), "peer1.x"), f"ans 0 {i} 2001", f"eof {i}", "adv 400"]
+        return evs + ["tick"]
+
     def dwr_out(N):
         evs = ["start fail", "acc", "rx 0 " + nodegen.cer("peer1.x", "4", n(), n())]
         hb, e = 2000, 268435463
@@ -157,6 +165,14 @@ def kinds():
             evs += ["acc", f"rx {i + 1} " + nodegen.cer("peer1.x", "4", n(), n()), f"eof {i + 1}"]
         return evs + ["eof 0", "tick"]
 
+    def second_conn_req(N):
+        # the peer keeps one connection up and opens N further ones, each carrying one request that is answered before it ends
+        evs = ["start fail", "acc", "rx 0 " + nodegen.cer("peer1.x", "4", n(), n())]
+        for i in range(N):
+            evs += ["acc", f"rx {i + 1} " + nodegen.cer("peer1.x", "4", n(), n()), f"rx {i + 1} " + nodegen.ccr(n(), n(), "peer1.x"),
+                    f"ans 0 {i} 2001", f"eof {i + 1}"]
+        return evs + ["eof 0", "tick"]
+
     def dial_refused(N):
         evs = ["start fail"]
         for i in range(N):
@@ -182,10 +198,10 @@ def kinds():
         return evs + ["tick"]
 
     return {"inbound_req": inbound_req, "inbound_req_norc": inbound_req_norc, "hard_write_error": hard_write_error,
-            "rejected_req": rejected_req, "dup_reject": dup_reject, "dwr_in": dwr_in, "dwr_out": dwr_out,
+            "rejected_req": rejected_req, "dup_reject": dup_reject, "dwr_in": dwr_in, "dwr_in_sparse": dwr_in_sparse, "dwr_out": dwr_out,
             "outbound_req": outbound_req, "outbound_req_timeout": outbound_req_timeout, "conn_ok": conn_ok, "inbound_req_raise": inbound_req_raise, "thread_req": thread_req,
             "thread_req_raise": thread_req_raise, "conn_req_answered": conn_req_answered, "conn_node_closes": conn_node_closes, "conn_unknown": conn_unknown,
-            "conn_timeout": conn_timeout, "conn_already": conn_already, "dial_refused": dial_refused,
+            "conn_timeout": conn_timeout, "conn_already": conn_already, "second_conn_req": second_conn_req, "dial_refused": dial_refused,
             "dial_async_fail": dial_async_fail, "dial_rejected": dial_rejected, "dial_established": dial_established}
 
 
@@ -202,14 +218,15 @@ def final(lines: list[str]):
         if k.endswith("._answer_waiting"):
             allc.pop(k)
     size["__all__"] = allc
+    size["__stat__"] = next((kv(l) for l in reversed(lines) if l.startswith("STAT ")), {})
     return size, resl
 
 
 def run(res: Result, tier: str, seed: int):
-    res.rule = ("17 kinds of completed transaction / connection attempt, each repeated N times (N = 1, 10 quick; 1, 10, 100 thorough; "
+    res.rule = ("19 kinds of completed transaction / connection attempt, each repeated N times (N = 1, 10 quick; 1, 10, 100 thorough; "
                 "a 1000-run for inbound requests in thorough) on one node, ending with every request answered and every "
                 "connection ended; oracle: every table size, the open-socket count and the live-worker count at the end are the "
-                "same for every N (apart from the fixed-size retransmission window); real vs model on SIZE/RES")
+                "same for every N (apart from the fixed-size retransmission window; the peers' statistics windows stay within their documented bounds: deque bound, maximum age of the time slots); real vs model on SIZE/RES")
     Ns = [1, 10] if tier == "quick" else [1, 10, 100]
     fails, div = [], []
     ks = kinds()
@@ -228,6 +245,10 @@ def run(res: Result, tier: str, seed: int):
             fails.append({"what": "scenario could not be driven: " + r[0], "line": line[:600]})
             continue
         size, resl = final(r)
+        stat = size.pop("__stat__", {})
+        if stat.get("unbounded", "0") != "0" or stat.get("beyondAge", "0") != "0":
+            fails.append({"what": "a statistics window is not fixed-size: an unbounded record, or a time-slotted counter retaining values "
+                                  "older than its maximum age", "kind": name, "N": [N], "real": str(stat), "line": line[:1200]})
         by_kind.setdefault(name, []).append((N, size, resl, line))
         pr, pm = nodecheck.project(r, KEEP)[-8:], nodecheck.project(m, KEEP)[-8:]
         if pr != pm:
